@@ -194,3 +194,20 @@ func BoundaryEntitiesCfg(id string, pre, extra, capInc int, feat uint32, oracles
 	c.MaxBatch = 3
 	return c
 }
+
+// RichRelCfg starts from a constructed state: two targets with a child each in two relation nodes ({R} and {R,A}),
+// optionally with All(R) registered; extra handles can be created on top. Histories that would need 7+ operations
+// from the empty world (a target owning empty tables in several nodes, listed before other targets' tables) are
+// within depth 3-4 from here.
+func RichRelCfg(id string, extra int, registered bool, feat uint32, oracles uint32) *Cfg {
+	c := RelCfg(id, 0, 6+extra, 0, 8, feat|FBuilder, oracles)
+	c.Prologue = []wx.Op{
+		{K: OpNewEntity, A: 0}, {K: OpNewEntity, A: 0},
+		{K: OpBuilderNew, A: 1, B: 1, C: 0, D: 0}, {K: OpBuilderNew, A: 2, B: 1, C: 0, D: 0},
+		{K: OpBuilderNew, A: 1, B: 1, C: 1, D: 0}, {K: OpBuilderNew, A: 2, B: 1, C: 1, D: 0},
+	}
+	if registered {
+		c.Prologue = append(c.Prologue, wx.Op{K: OpRegister, A: encodeRef(0, -1, false)})
+	}
+	return c
+}
